@@ -101,11 +101,30 @@ def fail(fp: str) -> bool:
 
 def nt(fn, *a, **k):
     """Runs fn(*a) natively (CrossHair tracing suspended). Only legal when every value that
-    flows in is concrete - i.e. after the symbolic inputs were split by pick()/P()."""
+    flows in is concrete - i.e. after the symbolic inputs were split by pick()/P().
+
+    On Python 3.12 CrossHair traces through a global sys.monitoring hook that keeps firing
+    (and returning early) inside NoTracing; the tool's event set is switched off for the
+    duration of the all-concrete call so that it runs at interpreter speed."""
     if CONCRETE:
         return fn(*a, **k)
+    import sys
     from crosshair.tracers import NoTracing, is_tracing
     if not is_tracing():
         return fn(*a, **k)
     with NoTracing():
-        return fn(*a, **k)
+        mon = getattr(sys, 'monitoring', None)
+        tool = None
+        if mon is not None:
+            from crosshair import tracers
+            tool = getattr(tracers, 'SYS_MONITORING_TOOL_ID', None)
+        if tool is None or os.environ.get('VF_NT_FAST', '1') != '1':
+            return fn(*a, **k)
+        ev = mon.get_events(tool)
+        if ev == 0:
+            return fn(*a, **k)
+        mon.set_events(tool, 0)
+        try:
+            return fn(*a, **k)
+        finally:
+            mon.set_events(tool, ev)
